@@ -26,6 +26,8 @@ CHECKS = {
          "canonical state = everything later calls can observe (mc/history.py); module-level state assumed absent", "explicit-state BFS over API histories with state merging; fresh-object equality on every transition", "2 C10"),
  "C11": ("E1 over 17 asset/portfolio classes x parameter forms (list, datetime64 array, object array, DatetimeIndex, series name) x naive/CET/UTC dates x saved before/after a set-up; load(save(x)) builds, gives the identical problem on 3 grids, save is a fixpoint, own grid keeps points and zone and still optimises",
          "problem identity by canonical hash; exceptions agree only if the original raises the same type", "bounded exhaustive enumeration + round-trip equality on every case", "2 C11"),
+ "C13": ("E1 over every asset type accepting freq / periodicity (one and two variables per step, several rows per variable) x coarse frequencies / periodicities (with duration, period >= horizon) x windows x parameter deviations on three grids; constant rate / periodic dispatch predicates, value and plug-in against the fine reference model with equality rows",
+         "R2 fine model + equalities, averaged prices / limits as documented; no holding costs with coarse frequency; uniform steps in merged groups", "bounded exhaustive scenario enumeration against a reference model", "2 C13"),
 }
 
 def main():
